@@ -543,9 +543,19 @@ def run_util(run, n):
                 f["name"] = [ord(c) for c in "".join(rnd.choice("ABCxyz019") for _ in range(rnd.choice([1, 3, 8])))]
                 if f["ftype"] != 2:
                     f["load"] = f["exec"] = 0
+            if nf >= 2 and rnd.random() < 0.3:
+                # two files of the same name (a tape may hold a name twice, also in another letter case)
+                j = rnd.randrange(1, nf)
+                files[j]["name"] = [ord(ch) for ch in rnd.choice([str.upper, str.lower, str])("".join(chr(c) for c in files[0]["name"]))]
             src = fam_cas.impl_write(files)[1]
         else:
             files = [fam_dsk.gen_file(rnd, fam_dsk.boundary_lens(), 9000) for _ in range(nf)]
+            if nf >= 2 and rnd.random() < 0.3:
+                # two directory entries of the same name (GAME.BAS and GAME.BIN, or the very same name and extension)
+                j = rnd.randrange(1, nf)
+                files[j]["name"] = list(files[0]["name"])
+                if rnd.random() < 0.4:
+                    files[j]["ext"] = list(files[0]["ext"])
             src = fam_dsk.impl_write(None, files)[1]
         names = ["".join(chr(c) for c in f["name"])[:8] for f in files]
         mode = rnd.choice(["to_cas", "to_dsk", "to_bin", "chain"])
